@@ -111,3 +111,7 @@ Fixpoint dict_get {A} (d : list (pystr * A)) (k : pystr) : option A :=
 Definition dict_mem {A} (d : list (pystr * A)) (k : pystr) : bool := match dict_get d k with Some _ => true | None => false end.
 Fixpoint dict_set {A} (d : list (pystr * A)) (k : pystr) (v : A) : list (pystr * A) :=
   match d with [] => [(k, v)] | (k', v') :: t => if pystr_eqb k' k then (k', v) :: t else (k', v') :: dict_set t k v end.
+
+(* a dict with keys of any type that has a boolean equality, in insertion order: d[k] = v *)
+Fixpoint kdict_set {K A} (eqb : K -> K -> bool) (d : list (K * A)) (k : K) (v : A) : list (K * A) :=
+  match d with [] => [(k, v)] | (k', v') :: t => if eqb k' k then (k', v) :: t else (k', v') :: kdict_set eqb t k v end.
